@@ -33,9 +33,9 @@ theorem clock_destroy_general {σ σ' : St} (h : Clock σ) (id : Nat)
   · rw [hl]; exact q2
   · rw [hl, hpend]; exact q3
 
-theorem clock_destroy_nil {σ : St} (h : Clock σ) (id : Nat) (hpc : σ.pc = .d1 id) (hp : σ.pending = []) :
-    Clock (steps false 2 σ) := by
-  rw [destroy_nil_eq false σ id hpc hp]
+theorem clock_destroy_nil {σ : St} (h : Clock σ) (id : Nat) (hpc : σ.pc = .d1 id) (hp : σ.pending = [])
+    (hdf : σ.deferredFlag = false) : Clock (steps false 2 σ) := by
+  rw [destroy_nil_eq false σ id hpc hp hdf]
   have hnr : σ.running = false := by
     cases hr : σ.running
     · rfl
@@ -45,8 +45,9 @@ theorem clock_destroy_nil {σ : St} (h : Clock σ) (id : Nat) (hpc : σ.pc = .d1
   intro hr; have : σ.running = true := hr; rw [hnr] at this; exact absurd this (by simp)
 
 theorem clock_destroy_other {σ : St} (h : Clock σ) (id : Nat) (hpc : σ.pc = .d1 id) (e : Ev) (rest : List Ev)
-    (hp : σ.pending = e :: rest) (hne : e.id ≠ id) : Clock (steps false 2 σ) := by
-  rw [destroy_other_eq false σ id hpc e rest hp hne]
+    (hp : σ.pending = e :: rest) (hne : e.id ≠ id) (hdf : σ.deferredFlag = false) :
+    Clock (steps false 2 σ) := by
+  rw [destroy_other_eq false σ id hpc e rest hp hne hdf]
   have hr : σ.running = true := h.run.mpr (by rw [hp]; simp)
   obtain ⟨a1, a2, a3, a4⟩ := h.armed hr
   have her : eraseId id σ.pending = e :: eraseId id rest := by rw [hp]; simp [eraseId, hne]
@@ -64,8 +65,9 @@ theorem clock_destroy_other {σ : St} (h : Clock σ) (id : Nat) (hpc : σ.pc = .
 
 theorem clock_destroy_eqdl {σ : St} (h : Clock σ) (id : Nat) (hpc : σ.pc = .d1 id) (e n : Ev) (rest : List Ev)
     (hp : σ.pending = e :: n :: rest) (he : e.id = id)
-    (hne : Time.ne false e.deadline n.deadline = false) : Clock (steps false 2 σ) := by
-  rw [destroy_eqdl_eq σ id hpc e n rest hp he hne]
+    (hne : Time.ne false e.deadline n.deadline = false) (hdf : σ.deferredFlag = false) :
+    Clock (steps false 2 σ) := by
+  rw [destroy_eqdl_eq σ id hpc e n rest hp he hne hdf]
   have hr : σ.running = true := h.run.mpr (by rw [hp]; simp)
   obtain ⟨a1, a2, a3, a4⟩ := h.armed hr
   have her : eraseId id σ.pending = n :: rest := by rw [hp]; simp [eraseId, he]
@@ -91,8 +93,8 @@ theorem clock_destroy_eqdl {σ : St} (h : Clock σ) (id : Nat) (hpc : σ.pc = .d
     omega
 
 theorem clock_destroy_last {σ : St} (h : Clock σ) (id : Nat) (hpc : σ.pc = .d1 id) (e : Ev)
-    (hp : σ.pending = [e]) (he : e.id = id) : Clock (steps false 4 σ) := by
-  rw [destroy_last_eq false σ id hpc e hp he]
+    (hp : σ.pending = [e]) (he : e.id = id) (hdf : σ.deferredFlag = false) : Clock (steps false 4 σ) := by
+  rw [destroy_last_eq false σ id hpc e hp he hdf]
   have her : eraseId id σ.pending = [] := by rw [hp]; simp [eraseId, he]
   refine clock_destroy_general h id rfl rfl rfl rfl rfl rfl ⟨[Event.setitimer Time.zero.toUs], rfl, ?_⟩
     h.normT h.normL ?_ ?_ ?_ ?_
@@ -106,7 +108,8 @@ theorem clock_destroy_last {σ : St} (h : Clock σ) (id : Nat) (hpc : σ.pc = .d
 
 theorem clock_destroy_rearm {σ : St} (h : Clock σ) (id : Nat) (hpc : σ.pc = .d1 id) (e n : Ev) (rest : List Ev)
     (hp : σ.pending = e :: n :: rest) (he : e.id = id)
-    (hne : Time.ne false e.deadline n.deadline = true) : Clock (steps false 5 σ) := by
+    (hne : Time.ne false e.deadline n.deadline = true) (hdf : σ.deferredFlag = false) :
+    Clock (steps false 5 σ) := by
   have hr : σ.running = true := h.run.mpr (by rw [hp]; simp)
   obtain ⟨a1, a2, a3, a4⟩ := h.armed hr
   have hen : e.deadline.Norm := h.normP e (by rw [hp]; simp)
@@ -135,7 +138,7 @@ theorem clock_destroy_rearm {σ : St} (h : Clock σ) (id : Nat) (hpc : σ.pc = .
   have curN := Time.add_norm h.normT elN
   have curU : (σ.tsf.add (σ.ltr.sub (getTimer σ))).toUs = σ.tsf.toUs + σ.ltr.toUs - σ.remaining := by
     rw [Time.add_toUs h.normT elN, elU]; omega
-  rw [destroy_rearm_eq σ id hpc e n rest hp he hne hnz hok]
+  rw [destroy_rearm_eq σ id hpc e n rest hp he hne hnz hok hdf]
   have her : eraseId id σ.pending = n :: rest := by rw [hp]; simp [eraseId, he]
   have hehead := a4 e (n :: rest) hp
   refine clock_destroy_general h id rfl rfl rfl rfl rfl rfl
